@@ -122,7 +122,7 @@ func HarnessC18XRDRoles() {
 // exactly as it was, and writes nothing for an XRD that is being deleted.
 //
 //gosym:harness
-//gosym:cover applied foreign-role deleting
+//gosym:cover applied foreign-role deleting role-up-to-date role-stale
 func HarnessC18XRDRolesReconcile() {
 	s := kube.New()
 	s.Register(&v1.CompositeResourceDefinition{}, &v1.CompositeResourceDefinitionList{}, "apiextensions.crossplane.io", "CompositeResourceDefinition")
@@ -159,6 +159,22 @@ func HarnessC18XRDRolesReconcile() {
 	}
 	s.FaultAt = zz.Choose("fault.at", 8) - 1
 	s.FaultKind = 1 + zz.Choose("fault.kind", 2)
+	if s.FaultAt < 0 && taken < 0 && !deleting {
+		// the roles from an earlier reconcile: each absent, up to date, or
+		// stale (ours, with rules the XRD no longer renders)
+		for i := range want {
+			switch zz.Choose("role"+string(rune('0'+i))+".pre", 3) {
+			case 1:
+				zz.Cover("role-up-to-date")
+				s.Put(want[i].DeepCopy())
+			case 2:
+				zz.Cover("role-stale")
+				st := want[i].DeepCopy()
+				st.Rules = append(st.Rules, rbacv1.PolicyRule{APIGroups: []string{""}, Resources: []string{"secrets"}, Verbs: []string{"*"}})
+				s.Put(st)
+			}
+		}
+	}
 
 	r := NewReconciler(&zzMgr{c: s})
 	_, err := r.Reconcile(context.Background(), reconcile.Request{NamespacedName: types.NamespacedName{Name: d.Name}})
@@ -177,6 +193,10 @@ func HarnessC18XRDRolesReconcile() {
 		if !s.Peek("", w.Name, got) {
 			zz.Assert("missing-role-only-after-an-error", err != nil)
 			continue
+		}
+		if err == nil && taken < 0 {
+			// a reconcile that reports success has brought every role up to date
+			zz.Assert("successful-reconcile-leaves-every-role-with-the-rendered-rules", reflect.DeepEqual(got.Rules, w.Rules))
 		}
 		if len(got.OwnerReferences) == 1 && got.OwnerReferences[0].UID == "uid-xrd" {
 			zz.Cover("applied")
